@@ -510,6 +510,23 @@ impl proto::val_server::Val for broker::DataBroker {
                         }
                     })
                     .await;
+                // Nothing matched: root could be a branch path (like in kuksa.val.v1)
+                // Only support branches like Vehicle.Cabin.Sunroof but not like **.Sunroof
+                if metadata_response.is_empty()
+                    && !matcher.as_string().starts_with("**")
+                    && !matcher.as_string().ends_with("/**")
+                {
+                    if let Ok(branch_matcher) = Matcher::new(&(matcher.as_string() + "/**")) {
+                        broker
+                            .for_each_entry(|entry| {
+                                let entry_metadata = &entry.metadata();
+                                if branch_matcher.is_match(&entry_metadata.glob_path) {
+                                    metadata_response.push(proto::Metadata::from(*entry_metadata));
+                                }
+                            })
+                            .await;
+                    }
+                }
                 if metadata_response.is_empty() {
                     Err(tonic::Status::not_found(
                         "Specified root branch does not exist",
